@@ -321,7 +321,9 @@ func (st *dbState) newTable(t int) error {
 		return err
 	}
 	dt.tbl = tbl
+	st.mu.Lock()
 	st.tables[t] = dt
+	st.mu.Unlock()
 	return nil
 }
 
@@ -401,6 +403,10 @@ func (st *dbState) exec(op dbOp) Ev {
 	switch op.Op {
 	case "newtable":
 		if err := st.newTable(op.T); err != nil {
+			if errors.Is(err, statedb.ErrDuplicateTable) && st.concurrent {
+				// two goroutines registering the same name: the loser is told so (schedule driver)
+				return Ev{"op": "newtable", "t": op.T, "err": "duplicate"}
+			}
 			panic(err)
 		}
 		return Ev{"op": "newtable", "t": op.T}
